@@ -92,7 +92,7 @@ def gen_fn(rng, prof, allow_fail=True):
     else:
         mode = rng.choice(["k-then-ok", "k-then-ok", "always", "nonretry"])
         cls = rng.choice(USER_ERRS)
-        msg = rng.choice(["boom", "transient glitch", "x", "rate exceeded (429)", "access [denied]", "axb", "xx"])
+        msg = rng.choice(["boom", "transient glitch", "x", "rate exceeded (429)", "access [denied]", "axb", "xx", ""])
         if mode == "k-then-ok":
             k = rng.randrange(1, 4)
             att = [{"do": "raise", "cls": cls, "msg": msg} for _ in range(k)] + [{"do": "ret", "v": vspec()}]
@@ -244,12 +244,16 @@ class Gen:
             st = {"op": "wfcond", "check": {"attempts": att}, "strategy": strat,
                   "initial": gen_value(rng, 1, prof.get("rich", True))}
             self.custom_serdes(st)
+            if rng.random() < 0.3:
+                st["ctor"] = True  # decisions built with the dataclass constructor instead of the factory methods
             return self.wrap_try(st, 0.8)
         if k == "child":
             st = {"op": "child", "body": self.seq(depth + 1, in_branch, lo=1, hi=3)}
             if rng.random() < 0.3:
                 st["ret"] = gen_value(rng, 0, prof.get("rich", True))
             self.custom_serdes(st)
+            if rng.random() < 0.2:
+                st["setlog"] = True  # the body installs a user-supplied logger on its own context
             return self.wrap_try(st, 0.4)
         if k in ("parallel", "map"):
             nb = rng.choice(prof.get("branch_counts", [1, 2, 2, 3, 3, 4]))
@@ -275,6 +279,14 @@ class Gen:
                 branches.append(b)
             if k == "parallel":
                 st = {"op": "parallel", "branches": branches}
+                if nb >= 2 and rng.random() < 0.15:
+                    # two positions with the same specification, given as callables that compare equal
+                    i, j = rng.sample(range(nb), 2)
+                    branches[j] = json.loads(json.dumps(branches[i]))
+                    st["eqfn"] = True
+                for b in branches:
+                    if rng.random() < 0.1:
+                        b["setlog"] = True
             else:
                 st = {"op": "map", "items": [gen_value(rng, 1, False) for _ in range(nb)],
                       "bodies": [b["body"] for b in branches], "rets": [b.get("ret") for b in branches]}
